@@ -1,4 +1,4 @@
-//@@ {"wip":true,"inject":"src/lz/bt4.rs","features":"encoder","needs":["api_hash234"]}
+//@@ {"inject":"src/lz/bt4.rs","features":"encoder","needs":["api_hash234"]}
 
 // BT4 step harnesses: ONE real `find_matches` / `skip` from an arbitrary match-finder state under the table invariant
 // T1-T4 of harness/mf_hc4.rs (for the tree: both children of a node are older than the node).  The binary-tree *ordering*
@@ -146,7 +146,7 @@ fn bt4_find_matches_step<const WB: usize>(dict: u32, mlm: u32, nice_len: u32, de
     core::mem::forget(m);
 }
 
-//@ {"name":"c01h_bt4_find_matches_sound","tier":"thorough","props":["C01","C15","C13"],"obligation":"C01-H","stubbing":true,"stubs":["Hash234 table accessors -> environment stub (harness/api_hash234.rs)"],"timeout":3000,"mem_gb":9,"feature_variants":["encoder","encoder,optimization"],"functions":["lz::bt4::BT4::find_matches","lz::bt4::BT4::move_pos","lz::bt4::BT4::new","lz::hash234::Hash234::calc_hashes","lz::hash234::Hash234::update_tables","lz::lz_encoder::LZEncoderData::move_pos","lz::extend_match","lz::extend_match_safe"],"bounds":"dictionary 12 (cyclic_size 13), 40-byte window with arbitrary content, match_len_max 8, nice_len 8, depth limit 2; any read_pos/write_pos/finishing/pending, any lz_pos in [cyclic_size, 2^31-3], any cyclic_pos; one arbitrary admissible entry per hash table, two tree slots (all the call can read); unwind 12","assumes":["table invariant T1-T4 (harness/mf_hc4.rs header)","no position renormalisation in this step"]}
+//@ {"name":"c01h_bt4_find_matches_sound","tier":"thorough","props":["C01","C15","C13"],"obligation":"C01-H","stubbing":true,"stubs":["Hash234 table accessors -> environment stub (harness/api_hash234.rs)"],"timeout":7200,"mem_gb":9,"feature_variants":["encoder","encoder,optimization"],"functions":["lz::bt4::BT4::find_matches","lz::bt4::BT4::move_pos","lz::bt4::BT4::new","lz::hash234::Hash234::calc_hashes","lz::hash234::Hash234::update_tables","lz::lz_encoder::LZEncoderData::move_pos","lz::extend_match","lz::extend_match_safe"],"bounds":"dictionary 12 (cyclic_size 13), 40-byte window with arbitrary content, match_len_max 8, nice_len 8, depth limit 2; any read_pos/write_pos/finishing/pending, any lz_pos in [cyclic_size, 2^31-3], any cyclic_pos; one arbitrary admissible entry per hash table, two tree slots (all the call can read); unwind 12","assumes":["table invariant T1-T4 (harness/mf_hc4.rs header)","no position renormalisation in this step"]}
 #[kani::proof]
 #[kani::unwind(12)]
 #[kani::stub(crate::lz::hash234::Hash234::get_hash2_pos, crate::lz::hash234::verif_h234::get2)]
@@ -168,7 +168,7 @@ fn c01h_bt4_find_matches_lite() {
     bt4_find_matches_step::<20>(6, 5, 5, 1, true);
 }
 
-//@ {"name":"c15e_bt4_find_matches_depth3_bounds","props":["C15","C01"],"obligation":"C15-E","stubbing":true,"stubs":["Hash234 table accessors -> environment stub (harness/api_hash234.rs)"],"tier":"thorough","timeout":3600,"mem_gb":9,"feature_variants":["encoder,optimization"],"functions":["lz::bt4::BT4::find_matches"],"bounds":"as c01h_bt4_find_matches_sound with depth limit 3, nice_len 4; only bounds / memory safety asserted (the tree ordering invariant is not assumed)","assumes":["table invariant T1, T2, T4","no renormalisation in this step"]}
+//@ {"name":"c15e_bt4_find_matches_depth3_bounds","wip":true,"props":["C15","C01"],"obligation":"C15-E","stubbing":true,"stubs":["Hash234 table accessors -> environment stub (harness/api_hash234.rs)"],"tier":"thorough","timeout":3600,"mem_gb":9,"feature_variants":["encoder,optimization"],"functions":["lz::bt4::BT4::find_matches"],"bounds":"as c01h_bt4_find_matches_sound with depth limit 3, nice_len 4; only bounds / memory safety asserted (the tree ordering invariant is not assumed)","assumes":["table invariant T1, T2, T4","no renormalisation in this step"]}
 #[kani::proof]
 #[kani::unwind(12)]
 #[kani::stub(crate::lz::hash234::Hash234::get_hash2_pos, crate::lz::hash234::verif_h234::get2)]
@@ -179,7 +179,7 @@ fn c15e_bt4_find_matches_depth3_bounds() {
     bt4_find_matches_step::<40>(12, 8, 4, 3, false);
 }
 
-//@ {"name":"c01h_bt4_skip","tier":"thorough","props":["C01","C15"],"obligation":"C01-H","stubbing":true,"stubs":["Hash234 table accessors -> environment stub (harness/api_hash234.rs)"],"timeout":2400,"mem_gb":9,"functions":["lz::bt4::BT4::skip","lz::bt4::BT4::move_pos"],"bounds":"skip length 0..=1 (symbolic), depth limit 2, nice_len 8, same state space as c01h_bt4_find_matches_sound; unwind 12","assumes":["table invariant T1, T2, T4","no renormalisation in these steps"]}
+//@ {"name":"c01h_bt4_skip","tier":"thorough","props":["C01","C15"],"obligation":"C01-H","stubbing":true,"stubs":["Hash234 table accessors -> environment stub (harness/api_hash234.rs)"],"timeout":5400,"mem_gb":9,"functions":["lz::bt4::BT4::skip","lz::bt4::BT4::move_pos"],"bounds":"skip length 0..=1 (symbolic), depth limit 2, nice_len 8, same state space as c01h_bt4_find_matches_sound; unwind 12","assumes":["table invariant T1, T2, T4","no renormalisation in these steps"]}
 #[kani::proof]
 #[kani::unwind(12)]
 #[kani::stub(crate::lz::hash234::Hash234::get_hash2_pos, crate::lz::hash234::verif_h234::get2)]
@@ -210,6 +210,55 @@ fn c01h_bt4_skip() {
     assert!(d.buf[k] == content[k]);
     kani::cover!(n == 1 && hashed == 1, "one position hashed");
     kani::cover!(d.pending_size > pend0, "a skipped position became pending");
+    core::mem::forget(d);
+    core::mem::forget(mf);
+}
+
+// C01-H / C14: the renormalisation step of BT4::move_pos (see c01h_hc4_renormalise_step).
+static mut NORM_CALLS: u32 = 0;
+static mut NORM_OFFSET: i32 = 0;
+static mut NORM_PTRS: [*const i32; 4] = [core::ptr::null(); 4];
+static mut NORM_LENS: [usize; 4] = [0; 4];
+fn verif_record_normalize(positions: &mut [i32], norm_offset: i32) {
+    unsafe {
+        if (NORM_CALLS as usize) < 4 {
+            NORM_PTRS[NORM_CALLS as usize] = positions.as_ptr();
+            NORM_LENS[NORM_CALLS as usize] = positions.len();
+        }
+        NORM_CALLS += 1;
+        NORM_OFFSET = norm_offset;
+    }
+}
+
+//@ {"name":"c01h_bt4_renormalise_step","props":["C01","C14"],"obligation":"C01-H","timeout":900,"mem_gb":9,"stubbing":true,"functions":["lz::bt4::BT4::move_pos","lz::hash234::Hash234::normalize"],"bounds":"lz_pos = 0x7FFFFFFE before the step; 40-byte window","assumes":["LZEncoder::normalize replaced by a recorder (its element formula is decided by c14c_normalize_*)"],"stubs":["LZEncoder::normalize -> recorder"]}
+#[kani::proof]
+#[kani::unwind(12)]
+#[kani::stub(crate::lz::lz_encoder::LZEncoder::normalize, verif_record_normalize)]
+fn c01h_bt4_renormalise_step() {
+    let (mut d, content, mut mf) = any_bt4::<40>(12, 8, 8, 2);
+    mf.lz_pos = 0x7FFF_FFFE;
+    kani::assume(d.write_pos - (d.read_pos + 1) >= 8);
+    let cs = mf.cyclic_size;
+    let avail = mf.move_pos(&mut d);
+    assert!(avail >= 8);
+    unsafe {
+        assert!(NORM_CALLS == 4, "C01-H: all four tables (hash2, hash3, hash4, tree) must be renormalised");
+        assert!(NORM_OFFSET == 0x7FFF_FFFF - cs, "C01-H: renormalisation offset");
+        let p = NORM_PTRS;
+        assert!(p[0] != p[1] && p[0] != p[2] && p[0] != p[3] && p[1] != p[2] && p[1] != p[3] && p[2] != p[3],
+            "C01-H: a table was renormalised twice (and another one not at all)");
+        let l = NORM_LENS;
+        assert!(l[0] + l[1] + l[2] + l[3] >= 1024 + 65536 + 65536 + 2 * cs as usize, "C01-H: a table was renormalised only in part");
+        let e: i32 = kani::any();
+        kani::assume(e >= 0 && e < 0x7FFF_FFFF);
+        let e2 = if e > NORM_OFFSET { e - NORM_OFFSET } else { 0 };
+        if e >= NORM_OFFSET {
+            assert!(mf.lz_pos - e2 == 0x7FFF_FFFF - e, "C01-H: renormalisation changed a live distance");
+        } else {
+            assert!(mf.lz_pos - e2 >= cs, "C01-H: an entry clamped to 0 by renormalisation is still in reach");
+        }
+    }
+    kani::cover!(true, "renormalised");
     core::mem::forget(d);
     core::mem::forget(mf);
 }
